@@ -771,46 +771,23 @@ theorem stripLine_reflowLine (indent : Nat) (ws : List Str) (hne : ws ≠ []) (h
 example : stripLine (reflowLine 3 [['*', 'k'], ['*', '*', 'u', '*', '*'], ['*']]) =
     ['*', 'k', ' ', '*', '*', 'u', '*', '*', ' ', '*'] := by decide
 
-/-- Full-strength statement for the opener's own line (`/* text */`): `stripLine (' ' :: joinSp ws ++ [' '])
-= joinSp ws`. It is **false** for the code as it stands: a text that begins with `*` loses that star
-(known finding C09-F9). -/
-theorem stripLine_opener_counterexample :
-    ¬ ∀ ws : List Str, ws ≠ [] → (∀ w ∈ ws, Word w) → stripLine (' ' :: joinSp ws ++ [' ']) = joinSp ws := by
-  intro h
-  have := h [['*', 'k']] (by simp) (by
-    intro w hw
-    simp at hw; subst hw
-    exact ⟨by simp, by intro c hc; simp at hc; rcases hc with rfl | rfl <;> decide⟩)
-  revert this
-  decide
-
-/-- … and holds whenever the text does not begin with `*`. -/
-theorem stripLine_opener_partial (w : Str) (rest : List Str) (hw : ∀ x ∈ w :: rest, Word x)
-    (hstar : w.head? ≠ some '*') :
-    stripLine (' ' :: joinSp (w :: rest) ++ [' ']) = joinSp (w :: rest) := by
+/-- **The opener's own line keeps its text** (full strength since the /repo fix of finding C09-F9 —
+before it, `stripLine_opener_counterexample` / `_partial` stood here: a text beginning with `*` lost that
+star): what follows `/*` on its line is read back as exactly the words written, star-led or not. -/
+theorem stripOpener_ok (ws : List Str) (hne : ws ≠ []) (hw : ∀ w ∈ ws, Word w) :
+    stripOpener (' ' :: joinSp ws ++ [' ']) = joinSp ws := by
   have hsp : isWs ' ' = true := by decide
-  obtain ⟨c, r, hj, hc⟩ := joinSp_head w rest (hw w (by simp))
-  obtain ⟨r', c', hj', hc'⟩ := joinSp_last (w :: rest) (by simp) hw
-  have hcne : c ≠ '*' := by
-    intro he; subst he
-    obtain ⟨hwne, _⟩ := hw w (by simp)
-    cases w with
-    | nil => exact hwne rfl
-    | cons a b =>
-      cases rest <;> simp [joinSp] at hj <;> simp_all
-  have h1 : trimStart (' ' :: joinSp (w :: rest) ++ [' ']) = c :: r ++ [' '] := by
-    rw [hj]; simp [trimStart, List.dropWhile, hsp, hc]
-  unfold stripLine
-  rw [h1]
-  have hte : trimEnd (c :: r ++ [' ']) = c :: r := by
-    rw [← hj, hj']
+  cases ws with
+  | nil => exact absurd rfl hne
+  | cons w rest =>
+    obtain ⟨c, r, hj, hc⟩ := joinSp_head w rest (hw w (by simp))
+    obtain ⟨r', c', hj', hc'⟩ := joinSp_last (w :: rest) (by simp) hw
+    have h1 : trimStart (' ' :: joinSp (w :: rest) ++ [' ']) = joinSp (w :: rest) ++ [' '] := by
+      rw [hj]; simp [trimStart, List.dropWhile, hsp, hc]
+    unfold stripOpener
+    rw [h1, hj']
     simp [trimEnd, List.dropWhile, hsp, hc']
-  split
-  · rename_i r2 heq
-    simp at heq
-    exact absurd heq.1 hcne
-  · rw [hte, hj]
 
-example : stripLine (' ' :: joinSp [['a'], ['*', 'b']] ++ [' ']) = joinSp [['a'], ['*', 'b']] := by decide
+example : stripOpener (' ' :: joinSp [['*', 'k'], ['b']] ++ [' ']) = joinSp [['*', 'k'], ['b']] := by decide
 
 end SamVerif.CommentText
